@@ -1330,4 +1330,170 @@ theorem axis_keyword_swallowed :
       have hkb : k ≠ "axis" := by intro e; apply hk; simp [keysOf, e]
       cases kw <;> simp [exAxis]
 
+/-! ## round h6: clauses 4 + 5 once, through every level, with finding K3 as the exact complement -/
+
+theorem levelMatch_seq_cases {n : Nat} {c : Val} (h : isSeqOfLen n c = true) :
+    ∃ cs, (c = .list cs ∨ c = .tuple cs) ∧ cs.length = n := by
+  cases c with
+  | list cs => exact ⟨cs, Or.inl rfl, by simpa [isSeqOfLen] using h⟩
+  | tuple cs => exact ⟨cs, Or.inr rfl, by simpa [isSeqOfLen] using h⟩
+  | cell a => simp [isSeqOfLen] at h
+  | dict kvs => simp [isSeqOfLen] at h
+
+/-- sequences: one level of the code = one level of the statement unless the companion is of the K3 class -/
+theorem itemByI_statement (n i : Nat) (hi : i < n) (c : Val) (h : isSeqOfLen n c = false → ¬ HoldsSeq n c) :
+    itemByI i n c = if isSeqOfLen n c then (c.child (.idx i)).getD c else c := by
+  cases hm : isSeqOfLen n c with
+  | true =>
+    obtain ⟨cs, hc, hl⟩ := levelMatch_seq_cases hm
+    have hg : getIdx cs i = cs[i]'(by omega) := by simp [getIdx, List.getD, hl, hi]
+    rcases hc with rfl | rfl <;> simp [itemByI, hl, hg, Val.child, hi]
+  | false =>
+    simp only [Bool.false_eq_true, ↓reduceIte]
+    apply itemByI_no_match_seq i n _ c (Nat.le_refl _)
+    intro q cs hq hat hlen
+    exact h hm ⟨q, cs, hq, hat, hlen⟩
+
+/-- **Clauses 4 + 5 at one level, with finding K3 as the exact complement.**  Descending into child `s` of `v`, the code hands
+down `pickLevel v s c` - the member of a companion that is a sequence of the same length / a dict of the same keys, and otherwise
+the companion WHOLE ("everything else is broadcast") - unless the companion is of the K3 class (`SearchedStep`: it does not
+match the level but holds a matching container further inside, reachable through sequences resp. dict values) … -/
+theorem selStep_statement (v v' : Val) (s : Step) (c : Val) (hv : v.child s = some v') (hc : c.KeysNodup)
+    (h : ¬ SearchedStep v c) : selStep v s c = pickLevel v s c := by
+  cases v with
+  | cell a => simp [Val.child] at hv
+  | list xs =>
+    cases s with
+    | key k => simp [Val.child] at hv
+    | idx i =>
+      have hi : i < xs.length := (List.getElem?_eq_some_iff.1 (by simpa [Val.child] using hv)).1
+      simp only [selStep, pickLevel, levelMatch]
+      exact itemByI_statement xs.length i hi c (fun hm hh => h ⟨by simpa [levelMatch] using hm, hh⟩)
+  | tuple xs =>
+    cases s with
+    | key k => simp [Val.child] at hv
+    | idx i =>
+      have hi : i < xs.length := (List.getElem?_eq_some_iff.1 (by simpa [Val.child] using hv)).1
+      simp only [selStep, pickLevel, levelMatch]
+      exact itemByI_statement xs.length i hi c (fun hm hh => h ⟨by simpa [levelMatch] using hm, hh⟩)
+  | dict kvs =>
+    cases s with
+    | idx i => simp [Val.child] at hv
+    | key k =>
+      have hk : kvs.lookup k = some v' := by simpa [Val.child] using hv
+      simp only [selStep, pickLevel]
+      cases hm : levelMatch (.dict kvs) c with
+      | true =>
+        cases c with
+        | dict cs =>
+          have hp : (keysOf cs).Perm (keysOf kvs) := by simpa [levelMatch] using hm
+          have hmem : k ∈ keysOf cs := hp.symm.subset (mem_keys_of_lookup k v' kvs hk)
+          obtain ⟨y, hy⟩ := lookup_isSome_of_mem_keys k cs hmem
+          simp [itemByKey, sortStr_eq_of_perm hp, getKey, hy, Val.child]
+        | cell a => simp [levelMatch] at hm
+        | list cs => simp [levelMatch] at hm
+        | tuple cs => simp [levelMatch] at hm
+      | false =>
+        simp only [Bool.false_eq_true, ↓reduceIte]
+        apply itemByKey_no_match_dict k _ _ c (Nat.le_refl _) hc
+        intro q cs hq hat e
+        exact h ⟨hm, ⟨q, cs, hq, hat, perm_of_sortStr_eq _ _ e⟩⟩
+
+/-- … and on the K3 class the code does NOT do what the statement says: it hands down something else than the whole companion -/
+theorem selStep_searched (v v' : Val) (s : Step) (c : Val) (hv : v.child s = some v') (h : SearchedStep v c) :
+    selStep v s c ≠ pickLevel v s c := by
+  obtain ⟨hm, hh⟩ := h
+  simp only [pickLevel, hm, Bool.false_eq_true, ↓reduceIte]
+  cases v with
+  | cell a => simp [Val.child] at hv
+  | list xs =>
+    cases s with
+    | key k => simp [Val.child] at hv
+    | idx i =>
+      obtain ⟨q, cs, hq, hat, hl⟩ := hh
+      exact itemByI_searched i xs.length q c cs hq hat hl
+  | tuple xs =>
+    cases s with
+    | key k => simp [Val.child] at hv
+    | idx i =>
+      obtain ⟨q, cs, hq, hat, hl⟩ := hh
+      exact itemByI_searched i xs.length q c cs hq hat hl
+  | dict kvs =>
+    cases s with
+    | idx i => simp [Val.child] at hv
+    | key k =>
+      obtain ⟨q, cs, hq, hat, hp⟩ := hh
+      exact itemByKey_searched k _ q c cs hq hat (sortStr_eq_of_perm hp)
+
+/-- the boundary of finding K3, exactly -/
+theorem selStep_eq_pickLevel_iff (v v' : Val) (s : Step) (c : Val) (hv : v.child s = some v') (hc : c.KeysNodup) :
+    selStep v s c = pickLevel v s c ↔ ¬ SearchedStep v c :=
+  ⟨fun e hs => selStep_searched v v' s c hv hs e, selStep_statement v v' s c hv hc⟩
+
+theorem pickLevel_KeysNodup (v : Val) (s : Step) (c : Val) (hc : c.KeysNodup) : (pickLevel v s c).KeysNodup := by
+  unfold pickLevel
+  split
+  · cases hch : c.child s with
+    | none => simpa using hc
+    | some c' => simpa using KeysNodup_child hc hch
+  · exact hc
+
+/-- **Clauses 4 + 5 through every level**: for ANY companion - scalar, same shape, deeper than `v`, shallower, of another shape -
+the leaf of `v` at path `p` receives what the STATEMENT selects (`pickAlong`: at every level the member of a matching container,
+else the whole), provided no level on the way is of the K3 class.  `select_matches`, `select_scalar` and the
+`selStep_broadcast_*` theorems are special cases. -/
+theorem select_statement : ∀ (p : Path) (v c : Val), c.KeysNodup → (v.at p).isSome → NotSearched v p c →
+    select v p c = pickAlong v p c
+  | [], v, c, _, _, _ => by simp [select, pickAlong]
+  | s :: p, v, c, hc, hp, hn => by
+      cases hv : v.child s with
+      | none => simp [Val.at, hv] at hp
+      | some v' =>
+        have hp' : (v'.at p).isSome := by simpa [Val.at, hv] using hp
+        simp only [NotSearched, hv] at hn
+        rw [select_step v v' s p c hv, selStep_statement v v' s c hv hc hn.1]
+        simp only [pickAlong, hv]
+        exact select_statement p v' (pickLevel v s c) (pickLevel_KeysNodup v s c hc) hp' hn.2
+
+/-- non-vacuity: a companion DEEPER than `v` (the leaf receives a dict), and one of another shape that hides a list of the looped
+length inside a dict (not searched: passed whole) -/
+example :
+    let v : Val := .list [.list [.cell (.int 1), .cell (.int 2)], .list [.cell (.int 3), .cell (.int 4)]]
+    let deeper : Val := .list [.list [.list [.cell (.int 10)], .dict [("k", .cell (.int 20))]], .cell (.int 30)]
+    let other : Val := .list [.dict [("k", .list [.cell (.int 10), .cell (.int 20)])], .cell (.int 5), .cell (.int 6)]
+    NotSearched v [.idx 0, .idx 1] deeper ∧ pickAlong v [.idx 0, .idx 1] deeper = .dict [("k", .cell (.int 20))] ∧
+    NotSearched v [.idx 0, .idx 1] other ∧ pickAlong v [.idx 0, .idx 1] other = other := by
+  intro v deeper other
+  have hno : ¬ HoldsSeq 2 other := by
+    rintro ⟨q, cs, hq, hat, hl⟩
+    cases q with
+    | nil =>
+      rcases hat with hat | hat <;> simp [Val.at, other] at hat
+      subst hat; simp at hl
+    | cons s q =>
+      obtain ⟨j, rfl⟩ := hq s (by simp)
+      match j with
+      | 0 =>
+        cases q with
+        | nil => rcases hat with hat | hat <;> simp [Val.at, Val.child, other] at hat
+        | cons t q =>
+          obtain ⟨j', rfl⟩ := hq t (by simp)
+          rcases hat with hat | hat <;> simp [Val.at, Val.child, other] at hat
+      | 1 =>
+        cases q with
+        | nil => rcases hat with hat | hat <;> simp [Val.at, Val.child, other] at hat
+        | cons t q => rcases hat with hat | hat <;> simp [Val.at, Val.child, other] at hat
+      | 2 =>
+        cases q with
+        | nil => rcases hat with hat | hat <;> simp [Val.at, Val.child, other] at hat
+        | cons t q => rcases hat with hat | hat <;> simp [Val.at, Val.child, other] at hat
+      | n + 3 => rcases hat with hat | hat <;> simp [Val.at, Val.child, other] at hat
+  refine ⟨⟨fun h => ?_, ⟨fun h => ?_, trivial⟩⟩, by decide +kernel, ⟨fun h => hno h.2, ⟨fun h => ?_, trivial⟩⟩, by decide +kernel⟩
+  · have := h.1; revert this; decide +kernel
+  · have := h.1; revert this; decide +kernel
+  · have h2 := h.2
+    have : pickLevel v (.idx 0) other = other := by decide +kernel
+    rw [this] at h2
+    exact hno h2
+
 end Pyg.Props.C19
